@@ -925,6 +925,216 @@ def createcfg_stream(prop, ctx, res, world):
 
 
 # ---------------------------------------------------------------------------
+# every route into the conversion gets the same data: config_struct_from_dict, qmi.start(context_cfg=…),
+# qmi.start(config_file=…) with the data as the "contexts" section
+# ---------------------------------------------------------------------------
+
+class _StubContext:
+    """stands in for QMI_Context inside qmi.start(): no threads, no sockets — only what start() hands over"""
+    last = None
+
+    def __init__(self, name, config=None):
+        self.name, self.config = name, config
+        _StubContext.last = self
+
+    def start(self):
+        pass
+
+    def stop(self):
+        pass
+
+    def get_config(self):
+        return self.config
+
+    def get_context_config(self):
+        from qmi.core.config_defs import CfgContext
+        return CfgContext()
+
+
+def run_start(context_cfg, config_file=None):
+    """qmi.start(...) with the context object stubbed; returns (outcome line, config structure or None)"""
+    import qmi.core.context_singleton as ctxs
+    from qmi.core.exceptions import QMI_ConfigurationException
+    saved = (ctxs.QMI_Context, ctxs._connect_to_peers, ctxs._qmi_context, ctxs.QMI_CONFIG)
+    ctxs.QMI_Context, ctxs._connect_to_peers, ctxs._qmi_context, ctxs.QMI_CONFIG = _StubContext, (lambda: None), None, None
+    _StubContext.last = None
+    try:
+        try:
+            ctxs.start("c16ctx", config_file=config_file, init_logging=False, context_cfg=context_cfg)
+        except QMI_ConfigurationException as e:
+            kind, p = M.classify_cfg_error(str(e))
+            return f"exc:QMI_ConfigurationException {kind} {M.hexs(p)}", None, str(e)
+        except RecursionError:
+            raise
+        except Exception as e:  # noqa: BLE001
+            return f"exc:{type(e).__name__}", None, str(e)
+        cfg = _StubContext.last.config
+        return "ok", cfg, ""
+    finally:
+        ctxs.QMI_Context, ctxs._connect_to_peers, ctxs._qmi_context, ctxs.QMI_CONFIG = saved
+
+
+def run_from_dict(data, cls):
+    from qmi.core import config_struct as cs
+    from qmi.core.exceptions import QMI_ConfigurationException
+    try:
+        return "ok", cs.config_struct_from_dict(data, cls), ""
+    except QMI_ConfigurationException as e:
+        kind, p = M.classify_cfg_error(str(e))
+        return f"exc:QMI_ConfigurationException {kind} {M.hexs(p)}", None, str(e)
+    except RecursionError:
+        raise
+    except Exception as e:  # noqa: BLE001
+        return f"exc:{type(e).__name__}", None, str(e)
+
+
+NONSTR_KEYS = [1, None, ("a",), 2.5, True]
+
+
+def gen_context_cfg(rng, ctxdesc):
+    """{context name: per-context settings}: matching, one-mutation mismatching, unknown/misspelt keys, wrong nesting,
+    data that is not a dict, keys that are not strings"""
+    out, classes = {}, []
+    for _ in range(rng.randint(1, 3)):
+        name = rng.choice(["c1", "c2", "Ctx", "c 3", "é", "", "c1.x", "#"])
+        r = rng.random()
+        v = M.gen_valid(ctxdesc, rng, json_only=True)
+        cls = "valid"
+        if r < 0.35:
+            pass
+        elif r < 0.7:
+            v, cls = M.mutate(ctxdesc, v, rng)
+        elif r < 0.8:
+            v = dict(v)
+            v[rng.choice(["tcp_port", "Host", "hosts", "enable", "peers", "program_arg", "tcp_server_port "])] = rng.choice([1, "x", None])
+            cls = "misspelt-key"
+        elif r < 0.87:
+            v = rng.choice(NONDICT_TOP)
+            cls = "not-a-dict"
+        elif r < 0.94:
+            v = dict(v)
+            v[rng.choice(NONSTR_KEYS)] = 1
+            cls = "non-string-key"
+        else:
+            v = {"host": {"host": "h"}, "connect_to_peers": {"a": 1}} if rng.random() < 0.5 else {"contexts": {"c": v}}
+            cls = "wrong-nesting"
+        out[name] = v
+        classes.append(cls)
+    return out, classes
+
+
+def _all_str_keys(v) -> bool:
+    if isinstance(v, dict):
+        return all(isinstance(k, str) for k in v) and all(_all_str_keys(x) for x in v.values())
+    if isinstance(v, (list, tuple)):
+        return all(_all_str_keys(x) for x in v)
+    return True
+
+
+def _check_routes(cfg, world, td):
+    """push one context_cfg through every route; returns (failure signature or None, detail, lines for the model)"""
+    from qmi.core.config_defs import CfgContext, CfgQmi
+    # reference route: config_struct_from_dict on each item, in order — the verdict of the first failing item
+    ref_line, ref_objs, ref_msg = "ok", {}, ""
+    for k, d in cfg.items():
+        line, obj, msg = run_from_dict(copy.deepcopy(d), CfgContext)
+        if line != "ok":
+            ref_line, ref_msg = line, msg
+            break
+        ref_objs[k] = obj
+    # route qmi.start(context_cfg=…)
+    line, conf, msg = run_start(copy.deepcopy(cfg))
+    all_dicts = all(isinstance(d, dict) for d in cfg.values())
+    if all_dicts and not (line == "ok" or line.startswith("exc:QMI")):
+        return f"struct:only-config-error:{line[4:]}:route-context_cfg", f"qmi.start(context_cfg={cfg!r}): {line} {msg}", line
+    if line != ref_line or msg != ref_msg:
+        return "route:context_cfg-disagrees-with-from_dict", \
+            f"qmi.start(context_cfg={cfg!r}): {line} {msg!r}; config_struct_from_dict: {ref_line} {ref_msg!r}", line
+    if line == "ok":
+        got = {k: M.enc_val(M.nv_from_real(conf.contexts[k])) for k in cfg}
+        exp = {k: M.enc_val(M.nv_from_real(o)) for k, o in ref_objs.items()}
+        if got != exp or set(conf.contexts.keys()) != set(cfg.keys()):
+            return "route:context_cfg-structure-differs", f"{cfg!r}: {got} vs {exp}", line
+    # route file: the same data as the "contexts" section of a configuration file
+    if all_dicts and _all_str_keys(cfg) and "U" not in {t[0] for t in M.enc_val(cfg).split(" ")}:
+        from qmi.core.config import load_config_string
+        try:
+            text = json.dumps({"contexts": cfg})
+            json.dumps(cfg).encode("utf-8")
+        except (TypeError, ValueError, UnicodeEncodeError):
+            return None, "", line
+        if "NaN" in text or "Infinity" in text:
+            return None, "", line
+        path = os.path.join(td, "route.conf")
+        with open(path, "w", encoding="utf-8") as f:
+            f.write(text)
+        fline, fconf, fmsg = run_start(None, config_file=path)
+        refdata = load_config_string(text)
+        refdata["config_file"] = os.path.abspath(path)
+        rline, robj, rmsg = run_from_dict(refdata, CfgQmi)
+        if not (fline == "ok" or fline.startswith("exc:QMI")):
+            return f"struct:only-config-error:{fline[4:]}:route-config_file", f"contexts section {cfg!r}: {fline} {fmsg}", line
+        if fline != rline or fmsg != rmsg:
+            return "route:config_file-disagrees-with-from_dict", f"{cfg!r}: {fline} {fmsg!r} vs {rline} {rmsg!r}", line
+        if fline == "ok" and M.enc_val(M.nv_from_real(fconf)) != M.enc_val(M.nv_from_real(robj)):
+            return "route:config_file-structure-differs", f"{cfg!r}", line
+        # the verdict of the file route and of the context_cfg route agree (accept / refuse, and which kind)
+        if (fline == "ok") != (line == "ok") or (fline != "ok" and fline.split(" ")[1] != line.split(" ")[1]):
+            return "route:config_file-disagrees-with-context_cfg", f"{cfg!r}: file {fline}, context_cfg {line}", line
+    return None, "", line
+
+
+def routes_stream(prop, ctx, res, world, n: int):
+    rng = ctx.rng
+    ctxdesc = next((d for d in world.shipped if d[1] == "CfgContext"), None)
+    if ctxdesc is None:
+        return
+    from qmi.core.config_defs import CfgContext
+    raw_ctx = describe_raw(CfgContext)
+    lines, impl, cases = ["rty " + enc_raw(raw_ctx)], ["ok"], [None]
+    fixed = [({"c1": {"tcp_port": 1}}, ["misspelt-key"]), ({"c1": {"host": "h"}, "c2": {"hosts": "h"}}, ["valid", "misspelt-key"]),
+             ({"c1": {1: 2}}, ["non-string-key"]), ({"c1": {"tcp_server_port": "80"}}, ["wrong-scalar"]),
+             ({"c1": {"connect_to_peers": ["a", 1]}}, ["wrong-scalar"]), ({"c1": None}, ["not-a-dict"]), ({"c1": {}}, ["valid"]),
+             ({"c1": {"host": "a"}, "c1 ": {"host": "b"}}, ["valid", "valid"]), ({}, [])]
+    with tempfile.TemporaryDirectory() as td:
+        for i in range(len(fixed) + n):
+            cfg, classes = fixed[i] if i < len(fixed) else gen_context_cfg(rng, ctxdesc)
+            try:
+                sig, detail, line = _check_routes(cfg, world, td)
+            except RecursionError:
+                continue
+            for c in classes:
+                res.count("route_item_" + c)
+            res.count("route_cases")
+            res.note_case(("route", repr(cfg)))
+            res.traces_validated += 1
+            strkeys = _all_str_keys(cfg)
+            case = {"kind": "route", "cfg": M.enc_val(cfg) if strkeys else None, "repr": repr(cfg)[:300]}
+            if sig and not any(f.signature == sig for f in res.failures):
+                res.failures.append(Failure(sig, detail[:400], case))
+            # the model's verdict (its keys are strings)
+            if strkeys:
+                lines.append(f"applyctx M0 {M.enc_val(cfg)}")
+                if line == "ok":
+                    run = run_start(copy.deepcopy(cfg))[1]
+                    impl.append("ok " + M.enc_val({k: M.nv_from_real(v) for k, v in run.contexts.items()}))
+                else:
+                    impl.append(line)
+                cases.append(case)
+    model = [norm_model(l) for l in M.LeanDriver(prop.driver).run(lines)]
+    prop._diff(res, "applyContextCfg vs qmi.start(context_cfg=…)", lines, impl, cases, model)
+
+
+def replay_route(world, rp):
+    if not rp.get("cfg"):
+        return None
+    cfg = M.dec_val(rp["cfg"])
+    with tempfile.TemporaryDirectory() as td:
+        sig, detail, _ = _check_routes(cfg, world, td)
+    return Failure(sig, detail[:400], rp) if sig else None
+
+
+# ---------------------------------------------------------------------------
 # dump_config_file / load_config_file on real files
 # ---------------------------------------------------------------------------
 
